@@ -90,6 +90,8 @@ def run(ctx):
     with multiprocessing.get_context("fork").Pool(16, maxtasksperchild=1) as pool:     # one fresh process per shard
         for r in pool.imap_unordered(shard, specs):
             acc.merge(r)
+            if __import__('mc.runner').runner.enough(acc):
+                break
     cov = {
         "evaluations": acc.n, "distinct_nontrivial": acc.nontrivial,
         "rule": "%d modules (C01's generator) x 4 encoders at defaults in both encoder orders, one fresh process per shard; x %d single-option deviations on %s; x %d "
